@@ -154,6 +154,18 @@ CHECKS = {
              'SparseVec::from,get semantics; ' + TB,
         technique='MIR CFG reachability/dominance (write-after-view ordering) + exhaustive path-table extraction for encode/decode and the per-cell view table',
         ref='§4 C16'),
+    'C17': dict(
+        level='other',
+        text='ONLY the fixed-point discipline of the analyses computed by iteration (FIRST/nullable, FOLLOW): the '
+             'iterate-until-unchanged loops are found structurally; in each the change flag is reset once per round and '
+             'otherwise only raised (never overwritten with a value that can be false), and every mutation of '
+             'round-surviving state raises the flag, directly or through a test of its change result. Breaking either stops '
+             'the iteration before the least fixed point, i.e. gives sets that are too small.',
+        note='A necessary condition for exactness and termination-at-the-fixed-point. That the transfer functions are right is NOT '
+             'decided (on this tree FOLLOW ignores what follows a nullable neighbour - found by reading, invisible to these '
+             'rules, documented in DESIGN.md §6); nor are reachability, sentence costs and minimal sentences. Trusted: ' + TB,
+        technique='structural recognition of fixed-point loops in MIR + monotone-flag and noticed-mutation checks (reachability avoiding flag-raising blocks)',
+        ref='§4 C17, §10.6'),
     'C18': dict(
         level='other',
         text='Cache-key coverage (every builder setting read by code generation or after the skip decision is read by '
@@ -182,7 +194,6 @@ CHECKS = {
 NA = {
     'C01': 'language equality of the generated automaton is a property of computed item sets for every grammar x input; no structural clause beyond what C02/C16 cover',
     'C13': 'equivalence of compile-time and run-time pipelines is per-program translation validation and needs both to be run; statically visible parts are covered under C11/C14/C15',
-    'C17': 'exactness of FIRST/FOLLOW/nullable/cost fixed points is about computed values for every grammar; no structural necessary condition that is not a restatement of the algorithm',
     'C19': 'line/column mapping is index arithmetic over runtime vectors; needs relational numeric reasoning (a solver), a different technique family',
 }
 
